@@ -164,8 +164,20 @@ def check(P: Project, R: Report) -> None:
     xa.parents = A.exception_parents(P)
     R.paths += len(xo.ret) + len(xo.normal) + len(xo.exc)
 
+    ALIVE = ("self.process", "self.process is not None", "self.process.returncode is None")
+
     def not_running(st: PState) -> bool:
-        return any(l in st.lits for l in ("not self.process", "self.process.returncode is not None"))
+        if any(l in st.lits for l in ("not self.process", "self.process is None", "self.process.returncode is not None")):
+            return True
+        # … or the same said through a flag: `alive = self.process is not None and self.process.returncode is None` … `if alive:`
+        for l in st.lits:
+            if l.startswith("not "):
+                d = xa.defs.get(l[4:], ("", None))[1]
+                if isinstance(d, ast.BoolOp) and isinstance(d.op, ast.And) and all(ast.unparse(v) in ALIVE for v in d.values):
+                    return True
+                if d is not None and not isinstance(d, ast.BoolOp) and ast.unparse(d) in ALIVE:
+                    return True
+        return False
 
     exits = [("return", st, n) for st, n in xo.ret] + [("falloff", st, ax.node) for st in xo.normal] + [(t, st, n) for st, t, n in xo.exc]
     R.need(exits, "__aexit__ has no exit")
